@@ -594,10 +594,17 @@ func finish(spec Spec, tier string, entries []EntrySpec, results []*entryResult,
 	fmt.Printf("%s tier=%s paths=%d obligations=%d discharged=%d known=%d violations=%d inconclusive=%d witnesses_ok=%d queries=%d solver=%.1fs wall=%.1fs\n",
 		spec.ID, tier, tot.Paths, tot.Discharged+tot.Violated, tot.Discharged, len(knownHits), violations, len(inconcl), witOK,
 		tot.QSat+tot.QUnsat+tot.QUnknown, solverS, wall)
+	for _, c := range exitCleanups {
+		c()
+	}
 	if violations > 0 {
 		os.Exit(1)
 	}
 	os.Exit(0)
 }
+
+// exitCleanups run before finish() exits the process (deferred functions of
+// the caller do not run across os.Exit).
+var exitCleanups []func()
 
 func shortEntry(e string) string { return strings.TrimPrefix(e, repoMod+"/") }
